@@ -8,7 +8,7 @@
     Rust                                          Lean
     ------------------------------------------    -----------------------------
     BlockRangeExt::validate                       validRange
-    BlockRanges::from_vec                         fromVecGo / fromVec
+    BlockRanges::from_vec                         fromVecLoop / fromVec
     get_ranges(table, key)                        getRanges
     set_ranges / Table::insert                    RangesTable.insert
     Table::remove                                 RangesTable.remove
@@ -50,19 +50,27 @@ def Err.kind : Err → String
 /-- `BlockRangeExt::validate`: `start > 0 && start <= end` -/
 def validRange (r : Nat × Nat) : Bool := decide (r.1 > 0) && decide (r.1 ≤ r.2)
 
-/-- the loop of `BlockRanges::from_vec` with its `prev` variable -/
-def fromVecGo : Option (Nat × Nat) → Raw → Bool
-  | _, [] => true
-  | prev, r :: rest =>
-    if !validRange r then false
-    else if (match prev with
-             | some p => decide (r.1 ≤ p.2)
-             | none => false) then false
-    else fromVecGo (some r) rest
+/-- the loop of `BlockRanges::from_vec` (as repaired by /repo commit 574df8d "from_vec merges
+    adjacent ranges"): `merged` is the accumulator, kept REVERSED here (`merged.last_mut()` is
+    the head); a range must be valid and start after the end of the previous (merged) one; a
+    range that starts right after it is merged into it -/
+def fromVecLoop : Raw → Raw → Option Raw
+  | merged, [] => some merged.reverse
+  | merged, r :: rest =>
+    if !validRange r then none
+    else
+      match merged with
+      | prev :: older =>
+        if r.1 ≤ prev.2 then none                                            -- UnsortedBlockRanges
+        else if prev.2 + 1 = r.1 then fromVecLoop ((prev.1, r.2) :: older) rest   -- merge
+        else fromVecLoop (r :: prev :: older) rest
+      | [] => fromVecLoop [r] rest
 
 /-- `BlockRanges::from_vec`, as used by `get_ranges` (any error becomes `StoredDataError`) -/
 def fromVec (rs : Raw) : Except Err Raw :=
-  if fromVecGo none rs then .ok rs else .error .storedData
+  match fromVecLoop [] rs with
+  | some m => .ok m
+  | none => .error .storedData
 
 /-- `STORE.RANGES`: `&str ↦ Vec<(u64,u64)>` -/
 abbrev RangesTable := List (String × Raw)
